@@ -1140,7 +1140,7 @@ let gf_relevant nO matrixElementTolerance residue0 =
 (** val gf_chase_guarded : bool **)
 
 let gf_chase_guarded =
-  false
+  true
 
 (** val gf_part_eval : 'a1 -> 'a1 **)
 
@@ -1236,7 +1236,7 @@ let susc_zero_weight nO va vb wO _ index1 _ =
 (** val susc_chase_guarded : bool **)
 
 let susc_chase_guarded =
-  false
+  true
 
 (** val susc_part_eval : 'a1 numops -> 'a1 -> 'a1 -> 'a1 -> 'a1 -> 'a1 **)
 
@@ -1283,7 +1283,7 @@ let matsubara_spacing nO kI kpi beta =
 (** val chaseIndices_guarded : bool **)
 
 let chaseIndices_guarded =
-  false
+  true
 
 (** val all_some : 'a1 option list -> 'a1 list option **)
 
